@@ -146,6 +146,7 @@ type Cfg struct {
 	OwnIP, OwnLLA, RtIP    netip.Addr
 	LAN                    netip.Prefix
 	OfflineSec, PurgeSec   int64
+	Env                    string // the rest of NICInfo, not read by any rule: g/G/z HostGUA = 2001:db8::100 /64, /128, ::/0; r RouterGUA; l no RouterLLA; p RouterPrefix
 	ProbeSec               int64 // ProbeDeadline; NewSession requires 0 < Probe <= Offline (and Probe <= 30 min, Offline <= 60 min, Purge <= 24 h)
 }
 
@@ -156,23 +157,34 @@ func StdCfg() Cfg {
 
 func (c Cfg) Tok() string {
 	return strings.Join([]string{MacTok(c.OwnMAC), IPTok(c.OwnIP), IPTok(c.OwnLLA), MacTok(c.RtMAC), IPTok(c.RtIP),
-		IPTok(c.LAN.Addr()), strconv.Itoa(c.LAN.Bits()), strconv.FormatInt(c.OfflineSec, 10), strconv.FormatInt(c.PurgeSec, 10), strconv.FormatInt(c.ProbeSec, 10)}, ",")
+		IPTok(c.LAN.Addr()), strconv.Itoa(c.LAN.Bits()), strconv.FormatInt(c.OfflineSec, 10), strconv.FormatInt(c.PurgeSec, 10), strconv.FormatInt(c.ProbeSec, 10)}, ",") + c.envTok()
+}
+
+func (c Cfg) envTok() string {
+	if c.Env == "" {
+		return ""
+	}
+	return "," + c.Env
 }
 
 func ParseCfg(s string) Cfg {
 	f := strings.Split(s, ",")
-	if len(f) != 9 && len(f) != 10 {
+	if len(f) < 9 || len(f) > 11 {
 		panic("bad cfg token")
 	}
 	probe := int64(120)
-	if len(f) == 10 {
+	if len(f) >= 10 {
 		probe, _ = strconv.ParseInt(f[9], 10, 64)
+	}
+	env := ""
+	if len(f) == 11 {
+		env = f[10]
 	}
 	bits, _ := strconv.Atoi(f[6])
 	off, _ := strconv.ParseInt(f[7], 10, 64)
 	pur, _ := strconv.ParseInt(f[8], 10, 64)
 	return Cfg{OwnMAC: ParseMac(f[0]), OwnIP: ParseIP(f[1]), OwnLLA: ParseIP(f[2]), RtMAC: ParseMac(f[3]), RtIP: ParseIP(f[4]),
-		LAN: netip.PrefixFrom(ParseIP(f[5]), bits), OfflineSec: off, PurgeSec: pur, ProbeSec: probe}
+		LAN: netip.PrefixFrom(ParseIP(f[5]), bits), OfflineSec: off, PurgeSec: pur, ProbeSec: probe, Env: env}
 }
 
 // ---------------------------------------------------------------- frames
@@ -235,6 +247,12 @@ func BuildFrame(src net.HardwareAddr, class string, ip netip.Addr, arpmac net.Ha
 			l4 = lib.MkUDP(546, 547, make([]byte, 8))
 		case 4:
 			l4 = lib.MkUDP(1000, 67, make([]byte, 8))
+		case 5: // NDP neighbour solicitation (target fe80::99, source link-layer address option)
+			tgt := netip.MustParseAddr("fe80::99").As16()
+			next, l4 = 58, lib.MkICMP6(ip, d6, 135, 0, append(append([]byte{0, 0, 0, 0}, tgt[:]...), append([]byte{1, 1}, src...)...))
+		case 6: // NDP neighbour advertisement (target = the source, target link-layer address option)
+			tgt := ip.As16()
+			next, l4 = 58, lib.MkICMP6(ip, d6, 136, 0, append(append([]byte{0x20, 0, 0, 0}, tgt[:]...), append([]byte{2, 1}, src...)...))
 		default:
 			l4 = lib.MkUDP(1000, 2000, []byte("data"))
 		}
@@ -380,18 +398,43 @@ func (sm *Sim) argDone() {
 	}
 }
 
-func NewSim(cfg Cfg, t0 int64) *Sim {
-	start := time.Now().Add(-time.Hour)
-	packet.VerifSetMonitorNICFrequency(24 * time.Hour)
-	conn := lib.NewRecConn()
+// NIC builds the NICInfo of a configuration, incl. the fields no rule reads (Env).
+func (cfg Cfg) NIC() *packet.NICInfo {
 	nic := &packet.NICInfo{
 		HomeLAN4:    cfg.LAN,
 		HostAddr4:   packet.Addr{MAC: cfg.OwnMAC, IP: cfg.OwnIP},
 		RouterAddr4: packet.Addr{MAC: cfg.RtMAC, IP: cfg.RtIP},
-		HostLLA:     netip.PrefixFrom(cfg.OwnLLA, 64),
 		RouterLLA:   netip.PrefixFrom(lib.RouterLLA, 64),
 		IFI:         &net.Interface{MTU: 1500, Name: "eth0"},
 	}
+	if cfg.OwnLLA.IsValid() {
+		nic.HostLLA = netip.PrefixFrom(cfg.OwnLLA, 64)
+	}
+	gua := netip.MustParseAddr("2001:db8::100")
+	for _, e := range cfg.Env {
+		switch e {
+		case 'g':
+			nic.HostGUA = netip.PrefixFrom(gua, 64)
+		case 'G':
+			nic.HostGUA = netip.PrefixFrom(gua, 128)
+		case 'z':
+			nic.HostGUA = netip.PrefixFrom(netip.IPv6Unspecified(), 0)
+		case 'r':
+			nic.RouterGUA = netip.PrefixFrom(netip.MustParseAddr("2001:db8::ff"), 64)
+		case 'l':
+			nic.RouterLLA = netip.Prefix{}
+		case 'p':
+			nic.RouterPrefix = net.ParseIP("2001:db8::")
+		}
+	}
+	return nic
+}
+
+func NewSim(cfg Cfg, t0 int64) *Sim {
+	start := time.Now().Add(-time.Hour)
+	packet.VerifSetMonitorNICFrequency(24 * time.Hour)
+	conn := lib.NewRecConn()
+	nic := cfg.NIC()
 	s, err := packet.Config{Conn: conn, NICInfo: nic, ProbeDeadline: time.Duration(cfg.ProbeSec) * time.Second,
 		OfflineDeadline: time.Duration(cfg.OfflineSec) * time.Second, PurgeDeadline: time.Duration(cfg.PurgeSec) * time.Second}.NewSession("")
 	if err != nil {
@@ -860,7 +903,11 @@ func StdUniverse() Universe {
 			netip.MustParseAddr("192.168.0.255")},
 		IP6s: []netip.Addr{netip.MustParseAddr("fe80::1"), netip.MustParseAddr("fe80::2"), netip.MustParseAddr("2001:db8::1"),
 			netip.MustParseAddr("2001:db8::2"), netip.MustParseAddr("ff02::1"), netip.MustParseAddr("::"),
-			netip.MustParseAddr("::ffff:192.168.0.1")},
+			netip.MustParseAddr("::ffff:192.168.0.1"),
+			// further address classes (appended: the generators index the first seven): unique local fd00::/8 and fc00::/8,
+			// a global address outside 2001:db8::/32, site-local, NAT64, 6to4
+			netip.MustParseAddr("fd00::1"), netip.MustParseAddr("fc00::7"), netip.MustParseAddr("2600::1"),
+			netip.MustParseAddr("fec0::1"), netip.MustParseAddr("64:ff9b::808:808"), netip.MustParseAddr("2002:c0a8:1::1")},
 	}
 }
 
@@ -1974,4 +2021,87 @@ func (g *Gen) FullChannelHistory(n int) []string {
 	rx("6", u.IP6s[0])
 	ops = append(ops, "D")
 	return ops
+}
+
+// ---------------------------------------------------------------- the address-class domain and the NICInfo domain
+
+// ClassIP6 / ClassIP4: one or more representatives of every address class (first / last / inside).
+var ClassIP6 = []string{
+	"::", "::1", "::2", "::192.168.0.5", // unspecified, loopback, low / v4-compatible
+	"::ffff:0.0.0.0", "::ffff:192.168.0.1", "::ffff:169.254.1.1", "::ffff:127.0.0.1", "::ffff:224.0.0.1", "::ffff:255.255.255.255", "::ffff:8.8.8.8", // v4-mapped, by IPv4 class
+	"64:ff9b::808:808", "100::1", // NAT64, discard-only
+	"2000::1", "2001::1", "2001:db8::5", "2001:db8::105", "2002:c0a8:1::1", "2600::1", "3fff:ffff::1", "4000::1", // GUA 2000::/3 (Teredo, documentation, 6to4), unassigned
+	"fc00::1", "fcff::1", "fd00::1", "fd12:3456::1", "fdff:ffff:ffff:ffff:ffff:ffff:ffff:ffff", // unique local fc00::/8, fd00::/8
+	"fe00::1", "fe7f:ffff::1", "fe80::5", "fe80::", "febf:ffff:ffff:ffff:ffff:ffff:ffff:ffff", // below / link-local fe80::/10 first / last
+	"fec0::1", "feff::1", // site-local
+	"ff01::1", "ff02::1", "ff02::1:ff00:5", "ff05::2", "ff0e::1", "ffff:ffff:ffff:ffff:ffff:ffff:ffff:ffff", // multicast scopes, solicited-node
+}
+
+var ClassIP4 = []string{
+	"0.0.0.0", "127.0.0.1", "169.254.1.1", "224.0.0.1", "239.255.255.250", "240.0.0.1", "255.255.255.255",
+	"10.0.0.1", "172.16.0.1", "100.64.0.1", "8.8.8.8", "192.168.1.1", "192.167.255.255", "192.168.1.0", // RFC 1918, shared, public, just outside the LAN
+	"192.168.0.0", "192.168.0.255", "192.168.0.1", "192.168.0.254", "192.168.0.128", "192.168.0.3", "192.168.0.4", // the LAN's network / broadcast / first / last, around /30 /31 boundaries
+}
+
+// AddressClassHistory: a few frames, each with a source from one address class, from {router MAC, own MAC, a client MAC,
+// a MAC never seen before}, as IP frame (UDP / TCP / echo) or as ARP request / reply (IPv4) and NDP neighbour
+// solicitation / advertisement (IPv6), Notify after each; a purge at the end.
+func (g *Gen) AddressClassHistory(cfg Cfg, idx int) []string {
+	u := g.U
+	macs := []net.HardwareAddr{cfg.RtMAC, cfg.OwnMAC, u.MACs[2], u.MACs[3], {0x02, 0xcc, 0xcc, 0xcc, byte(g.Rng.Intn(256)), byte(g.Rng.Intn(256))}}
+	now := int64(0)
+	var ops []string
+	n := 3 + g.Rng.Intn(5)
+	for k := 0; k < n; k++ {
+		now += int64(g.Rng.Pick(1, 1, 5, 60))
+		m := macs[g.Rng.Intn(len(macs))]
+		i := idx*n + k // walks through both lists in order: every class is hit in every run
+		if g.Rng.Chance(60) {
+			ip := netip.MustParseAddr(ClassIP6[i%len(ClassIP6)])
+			ops = append(ops, RxTok(m, "6", ip, nil, g.Rng.Pick(0, 0, 1, 2, 5, 5, 6, 6), now), "N")
+		} else {
+			ip := netip.MustParseAddr(ClassIP4[i%len(ClassIP4)])
+			if g.Rng.Chance(50) {
+				am := m
+				if g.Rng.Chance(25) { // ARP sender hardware address differs from the Ethernet source
+					am = macs[g.Rng.Intn(len(macs))]
+				}
+				ops = append(ops, RxTok(m, "a", ip, am, g.Rng.Intn(2), now), "N")
+			} else {
+				ops = append(ops, RxTok(m, "4", ip, nil, g.Rng.Pick(0, 1, 2), now), "N")
+			}
+		}
+	}
+	ops = append(ops, fmt.Sprintf("P,%d", now+cfg.OfflineSec+1))
+	return ops
+}
+
+// EnvCfgs: the NICInfo domain. Every field of NICInfo as configuration: HostGUA unset / a /64 that contains the global
+// sources of the universe / a /128 / ::/0, RouterGUA, RouterLLA unset, RouterPrefix; HostLLA unset; HostAddr4 without
+// IPv4; the router being the host itself; the router MAC equal to a client's MAC; HomeLAN4 /30 /31 /32 /16 /0.
+func EnvCfgs() []Cfg {
+	var l []Cfg
+	for _, env := range []string{"g", "G", "z", "gr", "grp", "l", "gl", "zrl"} {
+		c := StdCfg()
+		c.Env = env
+		l = append(l, c)
+	}
+	u := StdUniverse()
+	c := StdCfg()
+	c.OwnLLA = netip.Addr{}
+	c.Env = "g"
+	l = append(l, c)
+	c = StdCfg()
+	c.RtMAC, c.Env = u.MACs[2], "g" // the router's MAC is a client's MAC of the universe
+	l = append(l, c)
+	c = StdCfg()
+	c.RtMAC, c.RtIP = c.OwnMAC, c.OwnIP // the host is its own router
+	l = append(l, c)
+	for _, pf := range []string{"192.168.0.0/30", "192.168.0.2/31", "192.168.0.1/32", "192.168.0.0/16", "192.168.0.128/25", "0.0.0.0/0"} {
+		c = StdCfg()
+		c.LAN = netip.MustParsePrefix(pf).Masked()
+		c.Env = "g"
+		l = append(l, c)
+	}
+	return l
 }
